@@ -7,6 +7,7 @@
 -/
 import TPV.Model.Sampler
 set_option linter.unusedVariables false
+set_option linter.unnecessarySimpa false
 
 deriving instance DecidableEq for Except
 
@@ -463,5 +464,254 @@ def C02_full_pairing : Prop :=
 example : (match sEx.sample o0 pT with | .ok rows => rows.all Row.paired | .error _ => false) = true := by
   decide +kernel
 
+
+/-! ## the carried parameter row, for every sum-free sampler expression -/
+
+
+theorem filterIdx_mem {α} (f : Nat → Bool) (l : List α) (x : α) (h : x ∈ filterIdx f l) : x ∈ l := by
+  unfold filterIdx at h
+  simp only [List.mem_map, List.mem_filter] at h
+  obtain ⟨⟨a, i⟩, ⟨hm, _⟩, rfl⟩ := h
+  have := List.mem_zipIdx hm
+  simp only [Nat.zero_le, Nat.zero_add, Nat.sub_zero, true_and] at this
+  obtain ⟨hlt, he⟩ := this
+  simp only
+  rw [he]; exact List.getElem_mem _
+
+theorem accumLoop_all {α} (P : α → Prop) (n : Nat) (prop : Nat → List α) (acc : Nat → Nat → Bool)
+    (hp : ∀ r, ∀ x ∈ prop r, P x) :
+    ∀ (fuel r : Nat) (h out : List α), (∀ x ∈ h, P x) → accumLoop n prop acc fuel r h = some out → ∀ x ∈ out, P x := by
+  intro fuel
+  induction fuel with
+  | zero => intro r h out _ e; simp [accumLoop] at e
+  | succ f ih =>
+    intro r h out hh e
+    simp only [accumLoop] at e
+    have hall : ∀ x ∈ h ++ filterIdx (acc r) (prop r), P x := by
+      intro x hx
+      rcases List.mem_append.mp hx with hx | hx
+      · exact hh x hx
+      · exact hp r x (filterIdx_mem _ _ _ hx)
+    split at e
+    · cases e
+      intro x hx
+      exact hall x (List.mem_of_mem_take hx)
+    · exact ih _ _ _ hall e
+
+theorem map_base_replicate (r : List Row) (n : Nat) (b : Row) (hl : r.length = n) (hb : ∀ x ∈ r, x.base = b) :
+    r.map Row.base = List.replicate n b := by
+  rw [List.eq_replicate_iff]
+  exact ⟨by simpa using hl, by intro y hy; obtain ⟨x, hx, rfl⟩ := List.mem_map.mp hy; exact hb x hx⟩
+
+theorem forRow_base (o : Oracle) (d : Dom) (n : Nat) (ρ : Row) : ∀ x ∈ forRow o d n ρ, x.base = ρ.base := by
+  intro x hx
+  simp only [forRow, List.mem_map] at hx
+  obtain ⟨c, _, rfl⟩ := hx
+  exact base_joinPt c ρ
+
+theorem filterLoopRow_base (o : Oracle) (d : Dom) (n : Nat) (ρ : Row) (r : List Row)
+    (h : filterLoopRow o d n ρ = .ok r) : ∀ x ∈ r, x.base = ρ.base := by
+  unfold filterLoopRow at h
+  split at h
+  · rename_i out e; cases h
+    exact accumLoop_all (fun x => x.base = ρ.base) _ _ _ (fun _ => forRow_base o d n ρ) _ _ _ _ (by simp) e
+  · cases h
+
+theorem lhsRow_base (o : Oracle) (d : Dom) (n : Nat) (ρ : Row) : ∀ x ∈ lhsRow o d n ρ, x.base = ρ.base := by
+  intro x hx
+  unfold lhsRow at hx
+  simp only at hx
+  split at hx
+  · exact forRow_base o d n ρ x (filterIdx_mem _ _ _ hx)
+  · rcases List.mem_append.mp hx with hx | hx
+    · exact forRow_base o d n ρ x (filterIdx_mem _ _ _ hx)
+    · exact forRow_base o d _ ρ x hx
+
+theorem gridFilterRow_base (o : Oracle) (d : Dom) (n : Nat) (ρ : Row) (r : List Row)
+    (h : gridFilterRow o d n ρ = .ok r) : ∀ x ∈ r, x.base = ρ.base := by
+  unfold gridFilterRow at h
+  simp only at h
+  split at h
+  · cases h; intro x hx; exact forRow_base o d n ρ x (filterIdx_mem _ _ _ hx)
+  · split at h
+    · cases h; intro x hx; exact forRow_base o d _ ρ x (filterIdx_mem _ _ _ hx)
+    · split at h
+      · rename_i out e
+        cases h
+        intro x hx
+        rcases List.mem_append.mp (List.mem_of_mem_take hx) with hx | hx
+        · exact forRow_base o d _ ρ x (filterIdx_mem _ _ _ hx)
+        · exact accumLoop_all (fun x => x.base = ρ.base) _ _ _ (fun _ => forRow_base o d n ρ) _ _ _ _ (by simp) e x hx
+      · cases h
+
+/-- a per-row loop whose body returns n rows carrying the row it was called for -/
+theorem perRow_carry (f : Row → Except Err (List Row)) (n : Nat) :
+    ∀ (l rows : List Row), (∀ ρ ∈ l, ∀ r, f ρ = .ok r → r.length = n ∧ ∀ x ∈ r, x.base = ρ.base) →
+      perRow f l = .ok rows → rows.map Row.base = repeatParams (l.map Row.base) n := by
+  intro l
+  induction l with
+  | nil => intro rows _ h; simp [perRow] at h; cases h; simp [repeatParams]
+  | cons ρ rs ih =>
+    intro rows hf h
+    simp only [perRow] at h
+    cases h1 : f ρ with
+    | error e => simp [h1, bind, Except.bind] at h
+    | ok r =>
+      cases h2 : perRow f rs with
+      | error e => simp [h1, h2, bind, Except.bind] at h
+      | ok rest =>
+        simp only [h1, h2, bind, Except.bind, pure, Except.pure] at h
+        cases h
+        have := hf ρ (by simp) r h1
+        rw [List.map_append, map_base_replicate r n ρ.base this.1 this.2,
+          ih rest (fun a ha => hf a (by simp [ha])) h2]
+        simp [repeatParams]
+
+theorem flatMap_carry (f : Row → List Row) (n : Nat) :
+    ∀ (l : List Row), (∀ ρ ∈ l, (f ρ).length = n ∧ ∀ x ∈ f ρ, x.base = ρ.base) →
+      (l.flatMap f).map Row.base = repeatParams (l.map Row.base) n := by
+  intro l
+  induction l with
+  | nil => intro _; simp [repeatParams]
+  | cons ρ rs ih =>
+    intro hf
+    have := hf ρ (by simp)
+    rw [List.flatMap_cons, List.map_append, map_base_replicate _ n ρ.base this.1 this.2,
+      ih (fun a ha => hf a (by simp [ha]))]
+    simp [repeatParams]
+
+theorem rowsOr1_ne (ps : List Row) (h : ps ≠ []) : rowsOr1 ps = ps := by
+  cases ps <;> simp_all [rowsOr1]
+
+/-- every leaf kind: rows i*n..i*n+n-1 carry parameter row i -/
+theorem leafSample_carry (o : Oracle) (kind : LeafKind) (d : Dom) (n : Nat) (filt : Bool) (ps rows : List Row)
+    (hn : 0 < n) (hk : ps ≠ []) (h : leafSample o kind d n filt ps = .ok rows) :
+    rows.map Row.base = repeatParams (ps.map Row.base) n := by
+  have hzip : ∀ (pts : List Point) (m : Nat), m = n → joinRows pts (repeatParams ps m) = .ok rows →
+      rows.map Row.base = repeatParams (ps.map Row.base) n := by
+    intro pts m hm hj
+    subst hm
+    unfold joinRows at hj
+    split at hj
+    · rename_i he
+      have : repeatParams ps m = [] := by simpa using he
+      have hl := repeatParams_length ps m
+      rw [this] at hl
+      have : 0 < ps.length * m := Nat.mul_pos (List.length_pos_iff.mpr hk) hn
+      simp at hl; omega
+    · split at hj
+      · rename_i hl; cases hj
+        rw [map_base_zipWith _ _ hl, map_repeatParams]
+      · cases hj
+  unfold leafSample at h
+  rw [rowsOr1_ne ps hk] at h
+  split at h
+  · exact hzip _ n rfl h
+  · exact perRow_carry _ n _ _ (fun ρ _ r hr => ⟨filterLoopRow_length o d n ρ r hr, filterLoopRow_base o d n ρ r hr⟩) h
+  · exact perRow_carry _ n _ _ (fun ρ _ r hr => ⟨filterLoopRow_length o d n ρ r hr, filterLoopRow_base o d n ρ r hr⟩) h
+  · cases h
+    exact flatMap_carry _ n _ (fun ρ _ => ⟨lhsRow_length o d n ρ hn, lhsRow_base o d n ρ⟩)
+  · split at h
+    · cases h
+    · split at h
+      · cases h
+        exact flatMap_carry _ n _ (fun ρ _ => ⟨forRow_length o d n ρ hn, forRow_base o d n ρ⟩)
+      · exact hzip _ _ (by rw [Dom.sample_length _ _ _ _ hn]; simp) h
+  · split at h
+    · cases h
+    · exact perRow_carry _ n _ _ (fun ρ _ r hr => ⟨gridFilterRow_length o d n ρ r hr, gridFilterRow_base o d n ρ r hr⟩) h
+
+
+theorem replicate_flatMap_replicate {α} (m n : Nat) (p : α) :
+    (List.replicate m p).flatMap (List.replicate n) = List.replicate (m * n) p := by
+  induction m with
+  | zero => simp
+  | succ m ih =>
+    rw [List.replicate_succ, List.flatMap_cons, ih, Nat.succ_mul, Nat.add_comm, ← List.replicate_append_replicate]
+
+theorem repeatParams_repeatParams (P : List Row) (m n : Nat) :
+    repeatParams (repeatParams P m) n = repeatParams P (m * n) := by
+  induction P with
+  | nil => simp [repeatParams]
+  | cons p P ih =>
+    simp only [repeatParams, List.flatMap_cons, List.flatMap_append] at ih ⊢
+    rw [ih, replicate_flatMap_replicate]
+
+theorem base_rest (pv : List Var) : ∀ r : Row, (r.rest pv).base = r.base
+  | .nil => rfl
+  | .ext _ _ => rfl
+  | .cons p r => by
+    simp only [Row.rest]
+    split
+    · simp only [Row.base]; exact base_rest pv r
+    · simp only [Row.base]; exact base_rest pv r
+
+theorem map_zipWith_left {α β γ δ} (f : α → β → γ) (g : γ → δ) (h : α → δ) (hg : ∀ a b, g (f a b) = h a) :
+    ∀ (la : List α) (lb : List β), la.length = lb.length → (List.zipWith f la lb).map g = la.map h := by
+  intro la
+  induction la with
+  | nil => intro lb _; simp
+  | cons a la ih =>
+    intro lb hl
+    cases lb with
+    | nil => simp at hl
+    | cons b lb =>
+      simp only [List.zipWith_cons_cons, List.map_cons, hg]
+      rw [ih lb (by simpa using hl)]
+
+theorem appendRows_carry (pv : List Var) (ra rb rows : List Row) (h : appendRows pv ra rb = .ok rows) :
+    rows.map Row.base = ra.map Row.base := by
+  unfold appendRows at h
+  split at h
+  · rename_i he; cases h
+    exact map_zipWith_left _ _ _ (fun a b => by rw [base_joinPt, base_rest]) ra rb he
+  · cases h
+
+/-- **C02_full_carry as a theorem**: rows `i*len .. (i+1)*len-1` of every sum-free sampler expression carry
+    parameter row `i` unchanged (the carried external row of a row is `Row.base`) -/
+theorem rows_carry (o : Oracle) (s : S) : ∀ (ps rows : List Row), s.pos → s.sumFree = true → ps ≠ [] →
+    s.sample o ps = .ok rows → rows.map Row.base = repeatParams (ps.map Row.base) s.len := by
+  induction s with
+  | leaf k d n f => intro ps rows hp _ hk h; exact leafSample_carry o k d n f ps rows hp hk h
+  | data v id m => intro ps rows hp _ hk h; exact rows_carry_partial_data v id m ps rows hk hp h
+  | prod a b iha ihb =>
+    intro ps rows hp hs hk h
+    simp only [S.sumFree, Bool.and_eq_true] at hs
+    rw [prod_rows] at h
+    cases hb : b.sample o ps with
+    | error e => simp [hb, Except.bind] at h
+    | ok rb =>
+      simp only [hb, Except.bind] at h
+      have hlb := rows_n o b ps rb hp.2 hb
+      have hrb : rb ≠ [] := by
+        intro e; rw [e] at hlb
+        have : 0 < b.len * max 1 ps.length := Nat.mul_pos (S.len_pos b hp.2) (by omega)
+        simp at hlb; omega
+      rw [iha rb rows hp.1 hs.1 hrb h, ihb ps rb hp.2 hs.2 hk hb, repeatParams_repeatParams, S.len, Nat.mul_comm]
+  | sum a b _ _ => intro ps rows _ hs; simp [S.sumFree] at hs
+  | append a b iha ihb =>
+    intro ps rows hp hs hk h
+    simp only [S.sumFree, Bool.and_eq_true] at hs
+    cases ha : a.sample o ps with
+    | error e => simp [S.sample, ha, bind, Except.bind] at h
+    | ok ra =>
+      cases hb : b.sample o ps with
+      | error e => simp [S.sample, ha, hb, bind, Except.bind] at h
+      | ok rb =>
+        simp only [S.sample, ha, hb, bind, Except.bind] at h
+        rw [appendRows_carry _ _ _ _ h, iha ps ra hp.1 hs.1 hk ha, S.len]
+  | static s ih => intro ps rows hp hs hk h; exact ih ps rows hp hs hk h
+
+theorem C02_full_carry_holds : C02_full_carry := fun o s ps rows hp hs hk h => rows_carry o s ps rows hp hs hk h
+
+/-- positional form: row `i*len + j` carries parameter row `i` -/
+theorem row_carries (o : Oracle) (s : S) (ps rows : List Row) (hp : s.pos) (hs : s.sumFree = true)
+    (h : s.sample o ps = .ok rows) (i j : Nat) (hi : i < ps.length) (hj : j < s.len) :
+    (rows[i * s.len + j]?).map Row.base = (ps[i]?).map Row.base := by
+  have hk : ps ≠ [] := by intro e; simp [e] at hi
+  have hc := rows_carry o s ps rows hp hs hk h
+  have := congrArg (fun l => l[i * s.len + j]?) hc
+  simp only [List.getElem?_map] at this
+  rw [this, repeatParams_getElem _ s.len i j (by simpa using hi) hj, List.getElem?_map]
 
 end TPV.Sampler
